@@ -2308,8 +2308,8 @@ func (m *SnapManager) doLinkSnap(t *state.Task, _ *tomb.Tomb) (err error) {
 	t.Set("old-cohort-key", oldCohortKey)
 	t.Set("old-last-refresh-time", oldLastRefreshTime)
 	t.Set("old-revs-before-cand", oldRevsBeforeCand)
+	t.Set("old-revert-status", snapst.RevertStatus)
 	if snapsup.Revert {
-		t.Set("old-revert-status", snapst.RevertStatus)
 		switch snapsup.RevertStatus {
 		case NotBlocked:
 			if snapst.RevertStatus == nil {
@@ -2794,12 +2794,15 @@ func (m *SnapManager) undoLinkSnap(t *state.Task, _ *tomb.Tomb) error {
 	snapst.LastRefreshTime = oldLastRefreshTime
 	snapst.CohortKey = oldCohortKey
 
-	if isRevert {
-		var oldRevertStatus map[int]RevertStatus
-		err := t.Get("old-revert-status", &oldRevertStatus)
-		if err != nil && !errors.Is(err, state.ErrNoState) {
-			return err
-		}
+	var oldRevertStatus map[int]RevertStatus
+	err = t.Get("old-revert-status", &oldRevertStatus)
+	if err != nil && !errors.Is(err, state.ErrNoState) {
+		return err
+	}
+	// a refresh drops the revert status of the revision it makes current,
+	// which has to come back as well; tasks of a refresh created by an
+	// older snapd did not record it
+	if isRevert || err == nil {
 		// may be nil if not set (e.g. created by old snapd)
 		snapst.RevertStatus = oldRevertStatus
 	}
